@@ -6,6 +6,7 @@ import (
 	"fmt"
 	"os"
 	"path/filepath"
+	"strings"
 	"sync"
 
 	"github.com/alicebob/sqlittle"
@@ -218,6 +219,25 @@ func c07Run(run *hx.Run, o, o2 *hx.Oracle, sdir string, idx int, sc c07Scenario)
 		return
 	}
 	defer long.Close()
+	// the long-lived handle reads once (filling its caches), then another connection commits
+	// a change; the stepped writer's transaction below is the NEXT one. Whatever state the
+	// writer is frozen in, the handle must show this committed change, not what it cached.
+	// a third handle also reads now, and then stays idle until the writer sits in RESERVED with a
+	// journal on disk: its first read after T1 happens in exactly that state
+	idle, ierr := sqlittle.Open(path)
+	if ierr == nil {
+		defer idle.Close()
+		readVersioned(idle)
+	}
+	idleUsed := false
+	if v := readVersioned(long); v.errs["Select/t"] != nil {
+		run.Violation("C07/first-read", fmt.Sprintf("%s: first read failed: %v", name, v.errs["Select/t"]), nil)
+		return
+	}
+	if err := o.Exec(path, "UPDATE t SET ver = -1, pad = pad || 'T1' WHERE (id % 2) = 0", "INSERT INTO t(v, ver, pad) VALUES(919, -1, 'committed before the stepped transaction')"); err != nil {
+		run.Inconclusive("T1 commit: " + err.Error())
+		return
+	}
 	if sc.reader {
 		if err := o2.Open("rdr", path, 0); err != nil {
 			run.Inconclusive("reader conn: " + err.Error())
@@ -279,10 +299,17 @@ func c07Run(run *hx.Run, o, o2 *hx.Oracle, sdir string, idx int, sc c07Scenario)
 				break
 			}
 		}
-		for _, kind := range []string{"fresh", "long"} {
+		kinds := []string{"fresh", "long"}
+		if idle != nil && !idleUsed && ws.Reserved && !ws.BlocksReaders() && strings.HasPrefix(journal, "journal-") {
+			kinds = append(kinds, "idle-since-before-last-commit")
+			idleUsed = true
+		}
+		for _, kind := range kinds {
 			var db *sqlittle.DB
 			var openErr error
-			if kind == "fresh" {
+			if kind == "idle-since-before-last-commit" {
+				db = idle
+			} else if kind == "fresh" {
 				if p, pm := safely(func() { db, openErr = sqlittle.Open(path) }); p {
 					run.Violation("C07/panic/open", "Open panicked: "+pm, nil)
 					continue
